@@ -105,6 +105,7 @@ type FuncContract struct {
 	Unfold       int
 	Iter         *IterProto
 	Decreases    *SExpr // for recursive functions
+	DecLex       []*SExpr // lexicographic measure (DecLex[0] == Decreases)
 	Ghosts       []SParam
 	Src          string
 	NoSafety     bool
@@ -386,9 +387,15 @@ func (cs *Contracts) parseItem(pkg string, it item, w, where string, pcurF **Fun
 				panic(w + ": ensures outside func/lemma")
 			}
 		case "decreases":
-			e := parseExprText(it.text, w)
+			// `decreases e1 ; e2 ; ...` is a lexicographic measure (function contracts only)
+			parts := splitTopLevel(it.text, ';')
+			e := parseExprText(parts[0], w)
 			if curF != nil {
 				curF.Decreases = e
+				curF.DecLex = []*SExpr{e}
+				for _, q := range parts[1:] {
+					curF.DecLex = append(curF.DecLex, parseExprText(q, w))
+				}
 			} else if curS != nil {
 				curS.Decreases = e
 			}
@@ -675,4 +682,26 @@ func usesOld(e *SExpr) bool {
 		}
 	}
 	return false
+}
+
+// splitTopLevel splits at sep outside parentheses / brackets.
+func splitTopLevel(s string, sep rune) []string {
+	var out []string
+	depth := 0
+	cur := ""
+	for _, r := range s {
+		switch {
+		case r == '(' || r == '[':
+			depth++
+		case r == ')' || r == ']':
+			depth--
+		}
+		if r == sep && depth == 0 {
+			out = append(out, cur)
+			cur = ""
+			continue
+		}
+		cur += string(r)
+	}
+	return append(out, cur)
 }
